@@ -6,6 +6,20 @@ PURE_OBS = None  # compare every line
 NOT_APPLICABLE = {}
 
 PROPS = {
+    'C08': {
+        'families': [('pure:utf8', 500, 20000), ('pure:utf8c', 8, 200), ('ep:utf8', 1500, 40000), ('corpus:utf8', 0, 0)],
+        'rule': 'from_utf8 / utf8::decode on all 1- and 2-byte strings, 3-/4-byte strings around every table boundary and structured '
+                'valid/invalid/truncated strings; Incomplete::try_complete on every incomplete-prefix shape x next bytes; text messages '
+                'cut into fragments (also inside characters) read through WebSocket::read',
+        'assumptions': ['std::str::from_utf8 and the utf-8 crate are modelled from their sources (Utf8.lean) and compared differentially; '
+                        'Utf8Bytes::as_str (from_utf8_unchecked) is only reached with bytes that passed these checks'],
+        'trusted_base': ['Spec/Utf8Table.lean: Unicode Table 3-7 as an inductive predicate + encodeScalar (the specification)'],
+        'level_text': 'Kernel-checked: the model of from_utf8 accepts exactly Table 3-7, which is exactly the encodings of scalar-value strings; '
+                      'its error reports are exact; the fragment collector accepts iff the concatenation is well-formed, delivers exactly it, '
+                      'rejects with the UTF-8 error otherwise and never reaches the unwrap sites of the utf-8 crate. All fragmentations, unbounded.',
+        'level_note': 'The tie to std / utf-8 crate code is differential (they are dependencies, modelled from source). End-to-end delivery '
+                      'through read is covered by the correspondence and the RFC-decoder monitor.',
+    },
     'C18': {
         'families': [('pure:hparse', 1, 1), ('pure:hformat', 2000, 100000), ('pure:fformat', 300, 6000)],
         'exhaustive': True,
